@@ -151,7 +151,9 @@ class PythonModelGenerator(IndentPrintMixin):
             return []
         spec = rule.params[0].split('::')
         base = [self._model_base_name()]
-        class_names = [safe_name(n) for n in spec] + base
+        class_names = [
+            n if n in vars(builtins) else safe_name(n) for n in spec
+        ] + base
         return [
             BaseClassSpec(class_name, class_names[i + 1])
             for i, class_name in enumerate(class_names[:-1])
